@@ -1154,6 +1154,16 @@ def r10_4(ctx: Ctx) -> None:
                        if witd is None else
                        "the outcome of some other action is taken for this component's event: its value changes (or stops being 0) "
                        "on a step on which the agent made no qualifying request", witd)
+            # (E) ... and on its own request the value is recomputed on *every* path (whatever the answer was): a status the branches
+            # do not mention (e.g. 'unreachable') must not leave the old value in place
+            for ee in [x for x in g.edges() if _event_true(x)]:
+                pe = None if ee.dst.id in {s_.id for s_ in live} else g.path_avoiding(
+                    [g.exit] + [r for r in g.nodes if r.kind == "stmt" and isinstance(r.ast, ast.Return)], lambda x: False, start=ee.dst,
+                    blocked_nodes={s_.id for s_ in live})
+                ctx.record(R, ctx.key(fn, "the component's own request always recomputes the value"), fn.loc(ee.label[1]), pe is None,
+                           "every path through the own-request edge stores self.reward" if pe is None else
+                           "after the agent's own request some outcome leaves the remembered value untouched: the component keeps paying "
+                           "(or withholding) what an earlier request earned", path_text(pe))
         fld = c.fields.get("reward")
         ctx.record(R, f"{c.path}::{c.short}::remembered value starts at 0", f"{c.path}:{getattr(fld.node, 'lineno', 0) if fld else 0}",
                    fld is not None and _is_zero(fld.default), f"reward default = {unparse(fld.default) if fld else 'missing'}")
